@@ -382,32 +382,43 @@ def corpus_checks(ctx):
                 break
     # offsets of add_noise are distances between the centres in three
     # dimensions (source and receivers at different depths; a relative one)
-    s4 = emg3d.Survey(
-        sources=[emg3d.TxElectricPoint((0, 0, -500, 0, 0)),
-                 emg3d.TxElectricPoint((300, 0, -100, 0, 0))],
-        receivers=[emg3d.RxElectricPoint((1000, 0, -1000, 0, 0)),
-                   emg3d.RxElectricPoint((0, 600, -800, 0, 0), relative=True),
-                   emg3d.RxElectricPoint((1200, 0, -500, 0, 0))],
-        frequencies=[1.0], data=np.ones((2, 3, 1))*(1+1j))
-    for n4, kw in enumerate((dict(min_offset=1100.0), dict(max_offset=1050.0),
-                             dict(min_offset=900.0, max_offset=1190.0))):
-        s4.add_noise(add_to=f'off{n4}', min_amplitude=None, **kw)
-        got = np.isnan(s4.data[f'off{n4}'].data[:, :, 0])
-        exp = np.zeros((2, 3), bool)
-        for i, src in enumerate(s4.sources.values()):
-            for j, rec in enumerate(s4.receivers.values()):
-                off = float(np.linalg.norm(np.asarray(rec.center_abs(src)) -
-                                           np.asarray(src.center)))
-                exp[i, j] = off < kw.get('min_offset', 0.0) or \
-                    off > kw.get('max_offset', np.inf)
-        if not np.array_equal(got, exp):
-            ctx.violation(
-                'offset-cut-not-three-dimensional',
-                f'add_noise({kw}): data are NaN at '
-                f'{got.astype(int).tolist()}, the documented rule (distance '
-                f'between source and receiver centres) gives '
-                f'{exp.astype(int).tolist()}',
-                {'corpus': '3-D offsets', 'kwargs': repr(kw)})
+    # (also for a survey of laboratory size, offsets of millimetres)
+    for sc4 in (1.0, 1e-5):
+        s4 = emg3d.Survey(
+            sources=[emg3d.TxElectricPoint((0, 0, -500*sc4, 0, 0)),
+                     emg3d.TxElectricPoint((300*sc4, 0, -100*sc4, 0, 0))],
+            receivers=[
+                emg3d.RxElectricPoint((1000*sc4, 0, -1000*sc4, 0, 0)),
+                emg3d.RxElectricPoint((0, 600*sc4, -800*sc4, 0, 0),
+                                      relative=True),
+                emg3d.RxElectricPoint((1200*sc4, 0, -500*sc4, 0, 0))],
+            frequencies=[1.0], data=np.ones((2, 3, 1))*(1+1j))
+        stop = False
+        for n4, kw in enumerate((
+                dict(min_offset=1100.0*sc4), dict(max_offset=1050.0*sc4),
+                dict(min_offset=900.0*sc4, max_offset=1190.0*sc4))):
+            s4.add_noise(add_to=f'off{n4}', min_amplitude=None, **kw)
+            got = np.isnan(s4.data[f'off{n4}'].data[:, :, 0])
+            exp = np.zeros((2, 3), bool)
+            for i, src in enumerate(s4.sources.values()):
+                for j, rec in enumerate(s4.receivers.values()):
+                    off = float(np.linalg.norm(
+                        np.asarray(rec.center_abs(src)) -
+                        np.asarray(src.center)))
+                    exp[i, j] = off < kw.get('min_offset', 0.0) or \
+                        off > kw.get('max_offset', np.inf)
+            if not np.array_equal(got, exp):
+                ctx.violation(
+                    'offset-cut-not-three-dimensional',
+                    f'add_noise({kw}): data are NaN at '
+                    f'{got.astype(int).tolist()}, the documented rule '
+                    f'(distance between source and receiver centres) gives '
+                    f'{exp.astype(int).tolist()}',
+                    {'corpus': '3-D offsets', 'kwargs': repr(kw),
+                     'scale': sc4})
+                stop = True
+                break
+        if stop:
             break
     # selection without restriction must not alias the original
     s3 = emg3d.Survey(
